@@ -17,6 +17,7 @@ SECOND = {
     "compete": [("limit", "buy"), ("market", "buy"), ("limit", "sell"), ("stop", "sell")],
     "all": [(k, s) for k in KINDS for s in ("buy", "sell")],
     "market_sell": [("market", "sell")],
+    "fok": [("market", "buy"), ("market", "sell"), ("stop", "sell")],
 }
 
 
@@ -25,7 +26,7 @@ def _side(s):
 
 
 def history(ctx, props=(), plan="single", kind=None, side=None, second="compete", depth=3, auto_borrow=None,
-            auto_repay=None, loan_symbol=None, **cfg):
+            auto_repay=None, loan_symbol=None, second_auto_borrow=False, loan_extra_decimals=0, **cfg):
     w = World(ctx, props=props, **cfg)
     b, pre = w.feed_bar("b0")
     w.check("bar0", pre, b)
@@ -49,7 +50,7 @@ def history(ctx, props=(), plan="single", kind=None, side=None, second="compete"
         o1 = w.place("o1", kind=kind, side=_side(side))
         w.check("place1")
         k2, s2 = ctx.pick("o2_class", SECOND[second])
-        o2 = w.place("o2", kind=k2, side=_side(s2))
+        o2 = w.place("o2", kind=k2, side=_side(s2), auto_borrow=second_auto_borrow)
         w.check("place2")
         b, pre = w.feed_bar("b1")
         w.check("bar1", pre, b)
@@ -61,7 +62,7 @@ def history(ctx, props=(), plan="single", kind=None, side=None, second="compete"
             b, pre = w.feed_bar("b2")
             w.check("bar2 after cancels", pre, b)
     elif plan == "loans":
-        l1 = w.create_loan("l1", symbol=loan_symbol)
+        l1 = w.create_loan("l1", symbol=loan_symbol, extra_decimals=loan_extra_decimals)
         w.check("loan1")
         o1 = w.place("o1", kind=kind, side=_side(side),
                      auto_borrow=ctx.flag("o1_auto_borrow") if auto_borrow is None else auto_borrow,
